@@ -36,6 +36,7 @@ MCProgs(st) ==
     \* a WriteControl of the application that times out before it gets the connection writes nothing and poisons
     \* nothing: pings are still answered and closes echoed afterwards
     << Op("WCP"), Op("RM"), Op("WCP"), Op("RM"), Op("RM") >>,
+    << Swd(-1), Op("RM"), Op("RM"), Op("RM") >>,
     << Op("NR"), Rd(1), Op("RA"), Op("NR"), Op("RA"), Op("NR") >>,
     << Op("NR"), Rl(1), Op("RM") >>,
     << Op("NR"), Op("NR"), Op("NR") >> }
